@@ -143,6 +143,18 @@ fn build(items: Vec<Item>, slots: &[(String, String)], assign: &[usize], style_s
                 for_types_mut(it, &mut |t| qualify(t, &qual));
             }
         }
+        // some fields are overridden for ONE other language (`#[typeshare(swift(type = ".."))]`, `go(..)`): for TypeScript and
+        // Kotlin - the languages whose imports are judged - they still name their Rust type and still need its import
+        for it in f.items.iter_mut() {
+            let sel = it.layout as usize;
+            if let Kind::Struct { shape: Shape::Named(fs), .. } = &mut it.kind {
+                for (k, fl) in fs.iter_mut().enumerate() {
+                    if (sel + k) % 3 == 0 && !fl.ty.user_refs().is_empty() {
+                        fl.type_override = Some(if (sel + k) % 2 == 0 { ("swift".to_string(), "String".to_string()) } else { ("go".to_string(), "string".to_string()) });
+                    }
+                }
+            }
+        }
         f.uses.insert(0, "use serde::{Deserialize, Serialize};".into());
         f.uses.insert(1, "use typeshare::typeshare;".into());
     }
